@@ -27,6 +27,14 @@ def export_programs(ctx, profile, size, name, simulate=None, depth=None, seed=No
     res = run_tlc('MC_OpMachine.tla', 'MC_OpMachine_export.cfg', ctx.work,
                   env={'OM_PROFILE': profile, 'OM_SIZE': size, 'OUT_FILE': out}, workers=1,
                   simulate=simulate, depth=depth, seed=seed, timeout=timeout)
+    # programs whose export line could not be evaluated (a value left TLC's 32-bit integers) are announced by the model
+    # (MC_OpMachine!Export), never dropped silently; a run that loses more than a small share of them is refused
+    dropped = (res.output or '').count('EXPORT-DROPPED')
+    if dropped:
+        nlines = sum(1 for _ in open(out)) if os.path.exists(out) else 0
+        ctx.extra.setdefault('export_dropped_programs', {})['%s-%s-%s' % (name, profile, size)] = dropped
+        if dropped > 0.02 * max(1, nlines) + 3:
+            raise MachineryError('%d of %d programs could not be exported (%s %s %s)' % (dropped, nlines + dropped, name, profile, size))
     return out, res
 
 
